@@ -1462,7 +1462,10 @@ TRUSTED = ["html.parser.HTMLParser: feed(text) calls the overridden handlers wit
 ASSUMED_MODELS = ["str.lower (uninterpreted function, shared by spec and code)", "str.split / str.join / str.strip (total, opaque result)",
                   "html.parser.HTMLParser.__init__ (no effect on subclass fields)", "attrs: list of (str, Optional[str]) pairs",
                   "email.message.Message (round 7): get_content_type / is_multipart / walk / get_payload(decode=False) / get(name, '') are total "
-                  "functions of the message object; walk() is a finite sequence",
+                  "functions of the message object; walk() is a finite sequence; get(name, '') is a str or (non-ASCII value) an email.header.Header "
+                  "object without str methods, str(<Header>) is total",
+                  "re (round 7, inside epub get_text only): <compiled str pattern>.sub(<constant without backslash>, text) and re.sub(<constant "
+                  "pattern re accepts>, <constant>, text) are total functions of the text",
                   "quopri.decodestring / base64.b64decode (partial functions of the bytes: value or exception), str.encode('utf-8', errors='replace') "
                   "(total), <whitespace regex>.sub(b'', x) (function of x; the pattern is checked to match whitespace only), "
                   "bytes slicing / lower / `in` (total, opaque)"]
